@@ -256,7 +256,10 @@ func (r *Runner) discharge(tf *TF, dom Domain, o *Obligation, rep *HarnessReport
 	r.sem <- struct{}{}
 	defer func() { <-r.sem }()
 	var res CheckResult
-	if r.tierThorough() {
+	if r.tierThorough() && o.First {
+		all := append(append([]string{}, prim...), fb...)
+		res, _ = r.Pool.Portfolio(all, script, names, timeout, false)
+	} else if r.tierThorough() {
 		all := append(append([]string{}, prim...), fb...)
 		var got []CheckResult
 		res, got = r.Pool.Portfolio(all, script, names, timeout, true)
